@@ -19,6 +19,9 @@ use crate::json::show_bytes;
 use crate::{ensure, fail};
 
 pub enum HeadRx {
+    /// still awaiting 100: the same growing prefixes are first shown to try_read_100 until it
+    /// has decided (a non-100 head is a refusal), then the flow moves on to RecvResponse
+    Awaiting(Option<Flow<(), fs::Await100>>),
     Flow(Flow<(), fs::RecvResponse>),
     Call(Call<cs::RecvResponse, ()>),
     Parser,
@@ -44,6 +47,16 @@ pub fn make_rx(kind: u8, method: &str) -> Result<HeadRx, String> {
             let r = lib("Call::into_receive", || c.into_receive()).map_err(|e| e.to_string())?;
             Ok(HeadRx::Call(r))
         }
+        3 => {
+            let req = build_request("POST", 11, "http://a.test/x", &[("expect".to_string(), b"100-continue".to_vec())]);
+            let f = lib("Flow::new", || Flow::new(req)).map_err(|e| e.to_string())?;
+            let mut f = lib("Flow<Prepare>::proceed", || f.proceed());
+            lib("Flow<SendRequest>::write", || f.write(&mut buf)).map_err(|e| e.to_string())?;
+            match lib("Flow<SendRequest>::proceed", || f.proceed()) {
+                Ok(Some(SendRequestResult::Await100(a))) => Ok(HeadRx::Awaiting(Some(a))),
+                _ => Err("no Await100".into()),
+            }
+        }
         _ => Ok(HeadRx::Parser),
     }
 }
@@ -51,7 +64,26 @@ pub fn make_rx(kind: u8, method: &str) -> Result<HeadRx, String> {
 impl HeadRx {
     pub fn try_response(&mut self, ctx: &mut Ctx, w: &[u8]) -> Result<(usize, Option<Response<()>>), Error> {
         ctx.steps += 1;
+        if let HeadRx::Awaiting(slot) = self {
+            // the caller is still waiting for a 100: look with try_read_100 first
+            let mut a = slot.take().expect("awaiting flow");
+            let r = lib("Flow<Await100>::try_read_100", || a.try_read_100(w));
+            match r {
+                Ok(0) if lib("Flow<Await100>::can_keep_await_100", || a.can_keep_await_100()) => {
+                    *slot = Some(a);
+                    return Ok((0, None));
+                }
+                Ok(0) => match lib("Flow<Await100>::proceed", || a.proceed()) {
+                    Ok(ureq_proto::client::flow::Await100Result::RecvResponse(f)) => *self = HeadRx::Flow(f),
+                    Ok(_) => return Err(Error::HttpParseFail("harness: a non-100 head did not lead to RecvResponse".into())),
+                    Err(e) => return Err(e),
+                },
+                Ok(n) => return Err(Error::HttpParseFail(format!("harness: try_read_100 consumed {} bytes of a non-100 head", n))),
+                Err(e) => return Err(e),
+            }
+        }
         match self {
+            HeadRx::Awaiting(_) => unreachable!(),
             HeadRx::Flow(f) => lib("Flow<RecvResponse>::try_response", || f.try_response(w)),
             HeadRx::Call(c) => lib("Call<RecvResponse>::try_response", || c.try_response(w)).map(|o| match o {
                 Some((n, r)) => (n, Some(r)),
@@ -65,6 +97,7 @@ impl HeadRx {
     }
     pub fn can_proceed(&self) -> Option<bool> {
         match self {
+            HeadRx::Awaiting(_) => None,
             HeadRx::Flow(f) => Some(lib("Flow<RecvResponse>::can_proceed", || f.can_proceed())),
             HeadRx::Call(c) => Some(lib("Call<RecvResponse>::is_finished", || c.is_finished())),
             HeadRx::Parser => None,
@@ -122,6 +155,10 @@ pub fn gen_resp_head(ctx: &mut Ctx, max_generic: usize, allow_over: bool) -> Res
         if ((300..400).contains(&status) && ctx.chance(5, 6)) || ctx.chance(1, 10) {
             let loc = *ctx.pick(&["/next", "http://b.test/p?q=1", "../up", "//c.test/"]);
             extra.push(Field::plain("Location", loc));
+            if ctx.chance(1, 4) {
+                // Location may be repeated like any other field
+                extra.push(Field::plain("location", *ctx.pick(&["/other", "http://c.test/", ""])));
+            }
             if ctx.flip() {
                 extra.push(Field::plain("Set-Cookie", "sid=1; Path=/"));
             }
@@ -174,8 +211,8 @@ fn gen_tail(ctx: &mut Ctx) -> Vec<u8> {
 
 pub fn c05(ctx: &mut Ctx) -> R {
     set_observed(false);
-    let kind = ctx.draw(3) as u8;
-    let method = *ctx.pick(&["GET", "GET", "HEAD", "DELETE", "OPTIONS"]);
+    let kind = ctx.draw(4) as u8;
+    let method = if kind == 3 { "POST" } else { *ctx.pick(&["GET", "GET", "HEAD", "DELETE", "OPTIONS"]) };
     let mut rx = match make_rx(kind, method) {
         Ok(v) => v,
         Err(e) => fail!("FOREIGN", "", "cannot reach RecvResponse: {}", e),
@@ -209,7 +246,7 @@ pub fn c05(ctx: &mut Ctx) -> R {
     if *sched.last().unwrap() < final_len {
         sched.push(final_len);
     }
-    ctx.sample(|| format!("api={} method={} head: HTTP/1.{} {} with {} fields ({} bytes), tail {} bytes, arrival {:?} with {} cuts{}", match kind { 0 => "Flow", 1 => "Call", _ => "parser" }, method, h.http11 as u8, h.status, h.fields.len(), hl, tail.len(), mode, sched.len(), if full_sweep { " (every prefix)" } else { "" }));
+    ctx.sample(|| format!("api={} method={} head: HTTP/1.{} {} with {} fields ({} bytes), tail {} bytes, arrival {:?} with {} cuts{}", match kind { 0 => "Flow", 1 => "Call", 3 => "Flow after a refused Expect", _ => "parser" }, method, h.http11 as u8, h.status, h.fields.len(), hl, tail.len(), mode, sched.len(), if full_sweep { " (every prefix)" } else { "" }));
     match mode {
         crate::gen::ArrMode::Trickle => ctx.count("f:seg_trickle"),
         crate::gen::ArrMode::Structural => ctx.count("f:seg_cut_structural"),
